@@ -25,12 +25,13 @@ def rand_vec(rng):
     return out
 
 
-def spawn_module(with_start):
+def spawn_module(with_start, tag=0):
+    """spawn(arg) calls the WASI import; the start function reports (tid, arg + tag) and bumps a shared cell."""
     g = lambda k: ["local.get", k]
     m = {"types": [{"p": ["i32", "i32"], "r": []}, {"p": ["i32"], "r": ["i32"]}, {"p": [], "r": ["i32"]}],
          "imports": [{"mod": "env", "name": "report", "kind": "func", "type": 0, "ret": []},
                      {"mod": "wasi", "name": "thread-spawn", "kind": "func", "type": 1, "ret": b32(0)}],
-         "funcs": [{"type": 0, "locals": [], "body": [g(0), g(1), ["call", 0], ["i32.const", b32(64)], ["i32.const", b32(1)], ["i32.atomic.rmw.add", 2, 0], ["drop"], ["end"]]},
+         "funcs": [{"type": 0, "locals": [], "body": [g(0), g(1), ["i32.const", b32(tag)], ["i32.add"], ["call", 0], ["i32.const", b32(64)], ["i32.const", b32(1)], ["i32.atomic.rmw.add", 2, 0], ["drop"], ["end"]]},
                    {"type": 1, "locals": [], "body": [g(0), ["call", 1], ["end"]]},
                    {"type": 2, "locals": [], "body": [["i32.const", b32(64)], ["i32.atomic.load", 2, 0], ["end"]]}],
          "memory": {"min": 1, "max": 1, "shared": True},
@@ -77,12 +78,16 @@ def main():
         if tier != "quick":
             ids = ids * 17
         sf = os.path.join(wd, "clk.txt")
-        open(sf, "w").write("".join("clock %s %d\n" % (rng.choice("pu"), i) for i in ids))
+        # ids -1: a helper thread burns CPU first, so that afterwards the process CPU clock (2) and this thread's (3) differ widely
+        ids = ids[:4] + [-1] + ids[4:] + [2, 3, 3, 2]
+        open(sf, "w").write("".join(("clock %s %d\n" % (rng.choice("pu"), i)) if i >= 0 else "burn x 120\n" for i in ids))
         os.makedirs(os.path.join(wd, "csb"), exist_ok=True)
         rc, so, se = run([exe, os.path.join(wd, "csb"), sf, "--"], timeout=120, env={"ASAN_OPTIONS": "detect_leaks=0"})
         lines = [json.loads(l) for l in so.splitlines() if l.startswith("{")]
         prev = [0, 0]
         for n, cid in enumerate(ids):
+            if cid < 0:
+                continue
             br = next((l for l in lines if l.get("i") == n + 1 and "bracket" in l), None)
             ob = next((l for l in lines if l.get("i") == n + 1 and "call" in l), None)
             if br is None or ob is None:
@@ -144,11 +149,43 @@ def main():
                     except (ValueError, IndexError):
                         v.deviation("spawn:crash", {"K": K, "rc": rc, "stderr": se[-400:]})
                         continue
-                    recs.append({"kind": "spawn", "hasStart": with_start,
-                                 "spawns": [{"arg": s["arg"], "tid": max(s["ret"], 0), "neg": s["ret"] < 0} for s in h["spawns"]],
-                                 "starts": [{"tid": s["tid"] % 2 ** 31, "arg": s["arg"], "shared": bool(s["shared"]), "parentinstance": bool(s["parent"])} for s in h["starts"]],
+                    recs.append({"kind": "spawn",
+                                 "spawns": [{"arg": s["arg"], "tid": max(s["ret"], 0), "neg": s["ret"] < 0, "mod": 0, "hasStart": with_start} for s in h["spawns"]],
+                                 "starts": [{"tid": s["tid"] % 2 ** 31, "arg": s["arg"], "mod": 0, "shared": bool(s["shared"]), "parentinstance": bool(s["parent"])} for s in h["starts"]],
                                  "cell": h["cell"]})
                     owner.append(("spawn", K, h))
+        # several modules in one process: the start function of the SPAWNING module runs, whatever was spawned before
+        d = os.path.join(wd, "ts-multi")
+        os.makedirs(d)
+        TAGS = {"ta": 100000, "tb": 200000, "tn": 300000}
+        for name, ws in (("ta", True), ("tb", True), ("tn", False)):
+            open(os.path.join(d, name + ".wasm"), "wb").write(wasm_encode.encode(machine.enc_module(spawn_module(ws, TAGS[name]))))
+            rc, so, se = run([w2c2, "-m", "-t", "1", name + ".wasm", name + ".c"], cwd=d, timeout=60)
+            if rc != 0:
+                raise common.MachineryError("cannot translate the spawn module: " + se[-400:])
+        exe_m = os.path.join(d, "spawn2")
+        rc, so, se = run(["gcc", "-O1", "-w", "-I", d, "-I", os.path.join(REPO, "w2c2"), "-I", os.path.join(REPO, "wasi"), *wasi.WDEFS,
+                          os.path.join(BINDC, "spawn2_driver.c"), *[os.path.join(d, n + ".c") for n in TAGS], os.path.join(REPO, "wasi", "wasi.c"),
+                          "-o", exe_m, "-lpthread", "-lm"], timeout=300)
+        if rc != 0:
+            raise common.MachineryError("cannot build the multi-module spawn driver: " + se[-1500:])
+        orders = ["naabbnab", "bna", "abab", "nn", "anb"] if tier == "quick" else ["naabbnab", "bna", "abab", "nn", "anb", "ba", "ab", "nbnanb", "aaaa", "bbbbna"] * 4
+        for oi, order in enumerate(orders):
+            K = [0, 2, 4, 8][oi % 4]
+            rc, so, se = run([exe_m, str(K), order], timeout=60)
+            try:
+                h = json.loads(so.strip().splitlines()[-1])
+            except (ValueError, IndexError):
+                v.deviation("spawn:crash", {"order": order, "K": K, "rc": rc, "stderr": se[-400:]})
+                continue
+            modtag = {1: TAGS["ta"], 2: TAGS["tb"], 3: TAGS["tn"]}
+            recs.append({"kind": "spawn",
+                         "spawns": [{"arg": s["arg"], "tid": max(s["ret"], 0), "neg": s["ret"] < 0, "mod": s["mod"], "hasStart": s["mod"] != 3} for s in h["spawns"]],
+                         # which start function ran is read from the tag it added to the argument; on which module's instance from the callback used
+                         "starts": [{"tid": s["tid"] % 2 ** 31, "arg": (s["arg"] - modtag[s["mod"]]) % 2 ** 31, "mod": s["mod"] if 0 <= s["arg"] - modtag[s["mod"]] < 100000 else 99,
+                                     "shared": bool(s["shared"]), "parentinstance": bool(s["parent"])} for s in h["starts"]],
+                         "cell": h["cell"]})
+            owner.append(("spawn", "multi:" + order, h))
         # --- TLC judges everything and computes the layouts
         inf, outf = os.path.join(wd, "proc.ndjson"), os.path.join(wd, "judged.ndjson")
         # uniform records for TLC
@@ -159,8 +196,9 @@ def main():
         judged = read_ndjson(outf)[0]
         for k in judged["bad"]:
             kind, a, b = owner[k - 1]
-            sig = {"random": "random:%s" % ("fails-above-256-bytes" if a > 256 else "len-%d" % a), "clock": "clock:id-%d" % (a if a < 10 else 99),
-                   "exit": "exit:%s" % a, "spawn": "spawn:K=%s" % a, "layout": "layout:model"}[kind]
+            sig = ("random:%s" % ("fails-above-256-bytes" if a > 256 else "len-%d" % a)) if kind == "random" else \
+                  ("clock:id-%d" % (a if a < 10 else 99)) if kind == "clock" else \
+                  {"exit": "exit:%s" % a, "spawn": "spawn:%s" % (a if isinstance(a, str) else "K=%s" % a), "layout": "layout:model"}[kind]
             if kind == "layout":
                 raise common.MachineryError("the layout function violates its own disjointness conditions")
             v.deviation(sig, {"observation": b if kind != "spawn" else {"spawns": b["spawns"][:6], "starts": b["starts"][:6], "cell": b["cell"]}})
